@@ -73,9 +73,12 @@ RAC_FOR_FUNCTION['lemma_merge_step'] = ['mask_merge']
 for _f in ('CorrectNumberSuffix::lint', 'NumberSuffix::from_chars', 'NumberSuffix::to_chars'):
     RAC_FOR_FUNCTION[_f] = ['number_suffix_rule']
 RAC_FOR_FUNCTION['parse_inline_tag'] = ['comment_frontends']
+RAC_FOR_FUNCTION['index_to_position'] = ['lsp_glue']
+RAC_FOR_FUNCTION['span_to_range'] = ['lsp_glue']
 RAC_FOR_FUNCTION['lex_ip_schemepart'] = ['url_scanner', 'lexers']
 
 UNIT_RAC = {
+    'pos_conv': ['lsp_glue'],
     'vec_ext': ['remove_indices'],
     'mask': ['mask_push', 'mask_merge'],
     'mask_parser': ['comment_frontends', 'lhs_frontend'],
